@@ -1,5 +1,5 @@
 import CanvasProofs.Lemmas.C15Ops
-import CanvasProofs.C07
+import CanvasProofs.Lemmas.C15Mat
 import Mathlib.Tactic.Ring
 import Mathlib.Tactic.Linarith
 /-! # C15 — `Canvas.Fit`: after fitting with margin `μ`, every (non-degenerate) layer lies inside
@@ -204,7 +204,7 @@ theorem pre_translate_dot (x y : K) (c : Call K) (p : Pt K) :
     Matrix.Dot (Call.pre (opsK tr cd) (Matrix.Translate ⟨1, 0, 0, 0, 1, 0⟩ x y) c).m p =
       ⟨(Matrix.Dot c.m p).x + x, (Matrix.Dot c.m p).y + y⟩ := by
   show Matrix.Dot (Matrix.Mul (Matrix.Translate ⟨1, 0, 0, 0, 1, 0⟩ x y) c.m) p = _
-  rw [C07.dot_mul, C07.translate_dot]
+  rw [C15M.dot_mul, C15M.translate_dot]
   simp [Matrix.Dot]
 
 theorem fit_inside_layers (cv : Canvas K) (μ : K) (hnd : NonDegenerate tr cd cv) :
@@ -226,7 +226,7 @@ theorem fit_inside_layers (cv : Canvas K) (μ : K) (hnd : NonDegenerate tr cd cv
   have hitem : ∀ m, (Call.pre (opsK tr cd) m c).item = c.item := fun _ => rfl
   rw [hitem] at hne hx0 hx1 hy0 hy1
   obtain ⟨s1, s2, s3, s4⟩ := fitRect_contains tr cd cv hnd kl hkl c hc hne
-  obtain ⟨t1, t2, t3, t4⟩ := C07.rect_transform_contains c.m _ p ⟨hx0, hx1⟩ ⟨hy0, hy1⟩
+  obtain ⟨t1, t2, t3, t4⟩ := C15M.rect_transform_contains c.m _ p ⟨hx0, hx1⟩ ⟨hy0, hy1⟩
   rw [pre_translate_dot, hW, hH]
   refine ⟨?_, ?_, ?_, ?_⟩ <;> linarith
 
